@@ -29,6 +29,7 @@ type Knobs struct {
 	Comments bool // inject Comment items / end-of-item comments (C15)
 	Forms    bool // choose variadic vs …Func form (and function vs method form) per list construct (C14)
 	Damage   bool // damage one list of the program (C02)
+	DamageAt int  // which list (1-based, in construction order) to damage; 0 = pick 1..40 at random
 	// Wrap, if set, may replace an item by a wrapper around it (probes, C10/C07)
 	Wrap func(item jen.Code, kind string) jen.Code
 }
@@ -48,7 +49,8 @@ type Tr struct {
 	// Damaged describes the damage done ("" if none).
 	Damaged   string
 	damageAt  int
-	listCount int
+	// ListCount is the number of list constructs built so far (the File's own item list included).
+	ListCount int
 }
 
 func seedFor(seed int64, stream int64) int64 { return seed*1000003 + stream*7919 + 17 }
@@ -257,14 +259,17 @@ func (t *Tr) L(s *jen.Statement, name string, items []jen.Code) *jen.Statement {
 
 // damage alters one list of the program so that the composition is (most probably) not valid Go.
 func (t *Tr) damage(name string, items []jen.Code) []jen.Code {
+	t.ListCount++
 	if !t.knobs.Damage {
 		return items
 	}
-	t.listCount++
 	if t.damageAt < 0 {
-		t.damageAt = 1 + t.drnd.Intn(40)
+		t.damageAt = t.knobs.DamageAt
+		if t.damageAt <= 0 {
+			t.damageAt = 1 + t.drnd.Intn(40)
+		}
 	}
-	if t.listCount != t.damageAt {
+	if t.ListCount != t.damageAt {
 		return items
 	}
 	out := append([]jen.Code(nil), items...)
